@@ -4,6 +4,8 @@ content.  Model: Model/LinkFormat.lean (writer with a sink that never fails,
 then the parser).
 -/
 import CoapLite.Lemmas.LinkRoundtrip
+import CoapLite.Lemmas.Shape.Link
+import CoapLite.Lemmas.Shape.Global
 
 namespace CoapLite.C16
 open CoapLite Link
@@ -28,5 +30,22 @@ def ex : Doc :=
 
 example : DocWF ex := by decide
 example : (writeDoc noFault true ex).sink = "</s>;t=\"\\\",\\\\;>€\";sz=40,\n\r<x,y>;e=".toList := by decide
+
+/-! ### tie to the source: the state the model carries is the state the code carries
+
+`Shapes.*` (Generated/Shapes.lean) is re-read from /repo/src on every run: the field lists of the
+structs this property's model mirrors, and every construct that introduces state outside the values
+the API passes around (thread-locals, `static mut`, cells, locks, atomics). The model accounts for
+exactly these fields (Lemmas/Shape/*.lean say which model field mirrors which); a field or a
+global added to the code – a memo, a marker, a digest in place of the data – breaks this theorem
+even if no explored input behaves differently. -/
+theorem state_shape_matches_source :
+    Shapes.globalState = [] ∧
+    Shapes.linkFormatWrite = [("write", "&'amutT"), ("is_first", "bool"), ("add_newlines", "bool"), ("error", "Option<core::fmt::Error>")] ∧
+    Shapes.linkAttributeWrite = [("0", "&'bmutLinkFormatWrite<'a,T>")] ∧
+    Shapes.linkFormatParser = [("inner", "&'astr")] ∧
+    Shapes.linkAttributeParser = [("inner", "&'astr")] ∧
+    Shapes.unquote = [("inner", "core::str::Chars<'a>"), ("state", "UnquoteState")] :=
+  ⟨ShapeTie.no_global_state, ShapeTie.linkFormatWrite, ShapeTie.linkAttributeWrite, ShapeTie.linkFormatParser, ShapeTie.linkAttributeParser, ShapeTie.unquote⟩
 
 end CoapLite.C16
